@@ -1,8 +1,9 @@
 (* ---- lua_legs.inc.ml: model observables of the Lua front end shared by the C01/C03/C04 drivers ---- *)
-let parse_model (bs : n list) : string =
+let parse_model ?(nolocs = false) (bs : n list) : string =
   oracle_used := false;
   let r = parse_bytes gbk_oracle classify_tok bs in
-  if !oracle_used then "SKIP-ORACLE" else
+  (* the GBK oracle only influences positions: without Locs the observable does not depend on it *)
+  if !oracle_used && not nolocs then "SKIP-ORACLE" else
   match r with
   | OutOfFuel -> "MODEL-OUT-OF-FUEL"
   | Fault _ -> "MODEL-FAULT"
@@ -11,7 +12,7 @@ let parse_model (bs : n list) : string =
     let b = Buffer.create 1024 in
     let lex = List.sort compare (List.map lexerr_s le) in
     Buffer.add_string b ("OK L:" ^ String.concat "," lex ^ " P:" ^ String.concat "," (List.map perr_s pe) ^ " AST:");
-    block_s (le = []) b blk;
+    block_s (le = [] && not nolocs) b blk;
     Buffer.contents b
 
 (* token stream of the stand-alone lexer; also returns the tokens *)
